@@ -136,6 +136,7 @@ Theorem C16_uniform_residual_log_zero :
 Proof. exact uniform_residual_log. Qed.
 Print Assumptions C16_uniform_residual_log_zero.
 
+(** residual norm, for every specification whose bulk-density residual vanishes (the three cases below) *)
 Theorem C16_uniform_residual_norm_zero :
   forall (g : grid) (S : nat) (rho_b m : nat -> R) (WD : field -> nat -> idx -> R)
     (dphi : (nat -> R) -> nat -> R) (BACK : (nat -> idx -> R) -> field) (BOND : field -> field)
@@ -147,9 +148,85 @@ Theorem C16_uniform_residual_norm_zero :
   (forall e : field, (forall (s : nat) (i : idx), e s i = 1) -> forall (s : nat) (i : idx), BOND e s i = 1) ->
   (forall (s : nat) (i : idx), Vext s i = 0) ->
   (forall s : nat, m s <> 0) ->
-  res_norm g S rho_b m WD dphi BACK BOND Vext wd_b back_b (uniform rho_b) = 0.
+  forall spec : specification,
+  (forall s : nat, (s < S)%nat ->
+     res_bulk g S rho_b m WD dphi BACK BOND Vext wd_b back_b spec (uniform rho_b) s = 0) ->
+  res_norm g S rho_b m WD dphi BACK BOND Vext wd_b back_b spec (uniform rho_b) = 0.
 Proof. exact uniform_res_norm. Qed.
 Print Assumptions C16_uniform_residual_norm_zero.
+
+Theorem C16_uniform_residual_norm_zero_chemical_potential :
+  forall (g : grid) (S : nat) (rho_b m : nat -> R) (WD : field -> nat -> idx -> R)
+    (dphi : (nat -> R) -> nat -> R) (BACK : (nat -> idx -> R) -> field) (BOND : field -> field)
+    (Vext : field) (wd_b : nat -> R) (back_b : (nat -> R) -> nat -> R),
+  (forall (f f' : nat -> R) (a : nat), (forall a' : nat, f a' = f' a') -> dphi f a = dphi f' a) ->
+  (forall (a : nat) (i : idx), WD (uniform rho_b) a i = wd_b a) ->
+  (forall (pd : nat -> idx -> R) (c : nat -> R),
+     (forall (a : nat) (i : idx), pd a i = c a) -> forall (s : nat) (i : idx), BACK pd s i = back_b c s) ->
+  (forall e : field, (forall (s : nat) (i : idx), e s i = 1) -> forall (s : nat) (i : idx), BOND e s i = 1) ->
+  (forall (s : nat) (i : idx), Vext s i = 0) ->
+  (forall s : nat, m s <> 0) ->
+  res_norm g S rho_b m WD dphi BACK BOND Vext wd_b back_b ChemicalPotential (uniform rho_b) = 0.
+Proof. exact uniform_res_norm_chempot. Qed.
+Print Assumptions C16_uniform_residual_norm_zero_chemical_potential.
+
+(** the normalisation integrals [z] of the particle-number specifications ([integrate_reduced] of the
+    Boltzmann factor, with the weights of every axis AND the functional determinant) are the integral of one *)
+Theorem C16_uniform_normalisation_integral :
+  forall (g : grid) (rho_b m : nat -> R) (WD : field -> nat -> idx -> R)
+    (dphi : (nat -> R) -> nat -> R) (BACK : (nat -> idx -> R) -> field) (BOND : field -> field)
+    (Vext : field) (wd_b : nat -> R) (back_b : (nat -> R) -> nat -> R),
+  (forall (f f' : nat -> R) (a : nat), (forall a' : nat, f a' = f' a') -> dphi f a = dphi f' a) ->
+  (forall (a : nat) (i : idx), WD (uniform rho_b) a i = wd_b a) ->
+  (forall (pd : nat -> idx -> R) (c : nat -> R),
+     (forall (a : nat) (i : idx), pd a i = c a) -> forall (s : nat) (i : idx), BACK pd s i = back_b c s) ->
+  (forall e : field, (forall (s : nat) (i : idx), e s i = 1) -> forall (s : nat) (i : idx), BOND e s i = 1) ->
+  (forall (s : nat) (i : idx), Vext s i = 0) ->
+  (forall s : nat, m s <> 0) ->
+  forall s : nat,
+  z_norm g m WD dphi BACK BOND Vext wd_b back_b (uniform rho_b) s = integrate g (fun _ => 1).
+Proof. exact uniform_z_norm. Qed.
+Print Assumptions C16_uniform_normalisation_integral.
+
+(** specified particle numbers N_s = rho_s * V ([DFTSpecifications::Moles]) resp. N = rho * V ([TotalMoles]):
+    the bulk-density residual of the uniform profile is rho_s (V - W) / W, i.e. the uniform fluid stays a
+    solution exactly when the specified amount is rho times the integral of one (= rho * volume(), Part 1) *)
+Theorem C16_uniform_res_bulk_moles :
+  forall (g : grid) (S : nat) (rho_b m : nat -> R) (WD : field -> nat -> idx -> R)
+    (dphi : (nat -> R) -> nat -> R) (BACK : (nat -> idx -> R) -> field) (BOND : field -> field)
+    (Vext : field) (wd_b : nat -> R) (back_b : (nat -> R) -> nat -> R),
+  (forall (f f' : nat -> R) (a : nat), (forall a' : nat, f a' = f' a') -> dphi f a = dphi f' a) ->
+  (forall (a : nat) (i : idx), WD (uniform rho_b) a i = wd_b a) ->
+  (forall (pd : nat -> idx -> R) (c : nat -> R),
+     (forall (a : nat) (i : idx), pd a i = c a) -> forall (s : nat) (i : idx), BACK pd s i = back_b c s) ->
+  (forall e : field, (forall (s : nat) (i : idx), e s i = 1) -> forall (s : nat) (i : idx), BOND e s i = 1) ->
+  (forall (s : nat) (i : idx), Vext s i = 0) ->
+  (forall s : nat, m s <> 0) ->
+  forall (V : R) (s : nat),
+  integrate g (fun _ => 1) <> 0 ->
+  res_bulk g S rho_b m WD dphi BACK BOND Vext wd_b back_b (Moles (fun s' : nat => rho_b s' * V)) (uniform rho_b) s =
+  rho_b s * (V - integrate g (fun _ => 1)) / integrate g (fun _ => 1).
+Proof. exact uniform_res_bulk_moles_eq. Qed.
+Print Assumptions C16_uniform_res_bulk_moles.
+
+Theorem C16_uniform_res_bulk_total_moles :
+  forall (g : grid) (S : nat) (rho_b m : nat -> R) (WD : field -> nat -> idx -> R)
+    (dphi : (nat -> R) -> nat -> R) (BACK : (nat -> idx -> R) -> field) (BOND : field -> field)
+    (Vext : field) (wd_b : nat -> R) (back_b : (nat -> R) -> nat -> R),
+  (forall (f f' : nat -> R) (a : nat), (forall a' : nat, f a' = f' a') -> dphi f a = dphi f' a) ->
+  (forall (a : nat) (i : idx), WD (uniform rho_b) a i = wd_b a) ->
+  (forall (pd : nat -> idx -> R) (c : nat -> R),
+     (forall (a : nat) (i : idx), pd a i = c a) -> forall (s : nat) (i : idx), BACK pd s i = back_b c s) ->
+  (forall e : field, (forall (s : nat) (i : idx), e s i = 1) -> forall (s : nat) (i : idx), BOND e s i = 1) ->
+  (forall (s : nat) (i : idx), Vext s i = 0) ->
+  (forall s : nat, m s <> 0) ->
+  forall (V : R) (s : nat),
+  integrate g (fun _ => 1) <> 0 ->
+  rsum rho_b S <> 0 ->
+  res_bulk g S rho_b m WD dphi BACK BOND Vext wd_b back_b (TotalMoles (rsum rho_b S * V)) (uniform rho_b) s =
+  rho_b s * (V - integrate g (fun _ => 1)) / integrate g (fun _ => 1).
+Proof. exact uniform_res_bulk_total_moles_eq. Qed.
+Print Assumptions C16_uniform_res_bulk_total_moles.
 
 (** grand potential density = -p.  The Euler relation of the bulk model is the hypothesis named after C02;
     homosegmented functionals (spherical / chain-length parameter m, ideal chain term) ... *)
